@@ -191,7 +191,7 @@ theorem moveLatest_perm (ds : List DV) : moveLatest ds ~ ds := by
       exact Perm.append_left pre (by simp [perm_append_singleton])
 
 /-- Shape of `moveLatest` on a sorted list: a sorted part followed by at most one moved
-element, which is the last (hence greatest) element whose tags contain "latest". -/
+element, which is the last (hence greatest) element carrying the tag `latest` (`DV.hasLatest`). -/
 inductive MovedShape (ds : List DV) : List DV → Prop where
   /-- nothing carries "latest" -/
   | none (h : ∀ d ∈ ds, d.hasLatest = false) : MovedShape ds ds
